@@ -277,9 +277,60 @@ func runC01(w *World, rng *rand.Rand, n int) {
 			at := 1 + rng.Intn(w.nkeys)
 			go func() { time.Sleep(time.Duration(rng.Intn(3000)) * time.Microsecond); w.split(at) }()
 		}
+		// keyspace mode: a tenant of the neighbouring keyspace writes the same logical keys on the same store meanwhile
+		foreignDone := make(chan map[int]int, 1)
+		if ksID != 0 {
+			fc := w.client("foreign")
+			go func() {
+				last := map[int]int{}
+				for i := 0; i < 3; i++ {
+					tx, err := fc.store.Begin()
+					if err != nil {
+						continue
+					}
+					wrote := map[int]int{}
+					for k := 1; k <= w.nkeys; k++ {
+						if (k+i)%2 == 0 {
+							v := 90 + i
+							_ = tx.Set(keyOf(k), valOf(v))
+							wrote[k] = v
+						}
+					}
+					if tx.Commit(context.Background()) == nil {
+						for k, v := range wrote {
+							last[k] = v
+						}
+						w.rec.emit(M{"ev": "foreign_write", "n": len(wrote)})
+					}
+					time.Sleep(300 * time.Microsecond)
+				}
+				foreignDone <- last
+			}()
+		}
 		t1 := time.Now()
 		r.runThreads(threads)
 		tRun := time.Since(t1)
+		if ksID != 0 {
+			last := <-foreignDone
+			ok := true
+			fc := w.client("foreign")
+			if tx, err := fc.store.Begin(); err == nil {
+				for k := 1; k <= w.nkeys; k++ {
+					v, gerr := tx.Get(context.Background(), keyOf(k))
+					want, has := last[k]
+					if has && (gerr != nil || valInt(v.Value) != want) {
+						ok = false
+					}
+					if !has && gerr == nil {
+						ok = false
+					}
+				}
+				_ = tx.Rollback()
+			} else {
+				ok = false
+			}
+			w.rec.emit(M{"ev": "foreign_check", "ok": ok})
+		}
 		t2 := time.Now()
 		w.drained(baseline + 1)
 		tDr := time.Since(t2)
@@ -299,6 +350,9 @@ func main() {
 		panic(err)
 	}
 	log.ReplaceGlobals(zap.NewNop(), &log.ZapProperties{})
+	if *flagMode == "c01ks" {
+		ksID = 4242
+	}
 	if *flagMode == "c16" {
 		runC16(*flagOut, *flagSeed, *flagN)
 		return
@@ -307,7 +361,7 @@ func main() {
 	w := newWorld(*flagOut, *flagSeed, 4, nil)
 	defer w.rec.close()
 	switch *flagMode {
-	case "c01":
+	case "c01", "c01ks":
 		runC01(w, rng, *flagN)
 	case "c02":
 		runC02(w, rng, *flagN)
